@@ -96,6 +96,8 @@ func checkC10(c *Ctx) {
 	c.Expect("C10-R8", 1)
 	c.Rule("C10-R9", "the bytes of a clipboard event are memory made for the event, never a window into the input buffer the main loop keeps refilling (the application reads the event without any lock)")
 	c.Expect("C10-R9", 1)
+	c.Rule("C10-R10", "the wait group is incremented before the goroutines start, in the function that starts them and by their number (an Add inside the goroutine races the Wait in disengage; = C05-R3)")
+	c.Expect("C10-R10", 5)
 	c.Expect("C10-R1", 150)
 	c.Expect("C10-R3", 60)
 	c.Assume("constructors and Init happen-before every other call on the screen")
@@ -119,6 +121,7 @@ func checkC10(c *Ctx) {
 		c.asRule("C06-R3", "C10-R6", func() { c06Once(c, p) })
 		c.asRule("C06-R12", "C10-R8", func() { checkEventQueuesNeverClosed(c, p, "C06-R12") })
 		checkEventPayloadOwnsMemory(c, p, "C10-R9")
+		c.asRule("C05-R3", "C10-R10", func() { c05Pipeline(c, p) })
 	}
 	if c.Tier == "thorough" {
 		for _, cfg := range []string{"darwin", "freebsd"} {
